@@ -75,8 +75,9 @@ def search(ctx, broken, corr_broken):
     hits, n = pgncorr.oracle_search(ctx)
     LAST_SEARCH_CANDIDATES = n
     out = [{"key": k, "what": what, "replay": {"kind": "oracle", "function": sfx, "payload": str(x)}} for k, what, sfx, x in hits]
-    if (broken or corr_broken) and not out:
-        # "a returned message names that definition": a break in the dispatcher tables shows as the wrong (or no) definition for a payload
+    if not out:
+        # "a returned message names that definition" / "returns a message instead of failing": the wrong (or no) definition for a payload,
+        # also through a live decoder that has seen other payloads of the PGN (matching or not)
         import importlib
         c8 = importlib.import_module("props.C08")
         for v in c8.search(ctx, broken, corr_broken):
